@@ -254,6 +254,36 @@ def run(ctx) -> None:
                 except ValueError as e:
                     impl.append("error" if str(e).startswith("refurb: ") else "foreign")
 
+        # ---- per-path (amend) ignores never change WHICH CHECKS ARE LOADED (README: they silence diagnostics under that path only):
+        # the same options with amend tables added to the config file give the same verdicts
+        amend_txt = (
+            '\n[[tool.refurb.amend]]\npath = "sub/dir"\nignore = ["#c1", "FURB903", "XYZ100"]\n'
+            '\n[[tool.refurb.amend]]\npath = "."\nignore = ["#c2", 901]\n'
+        )
+        with settings_io.Cwd(d):
+            idxs = rng.sample(range(len(cases)), min(len(cases), 500 if ctx.quick else 5000))
+            amend_viol = 0
+            for i in idxs:
+                cfg_opts, cli_opts = cases[i]
+                if isinstance(impl[i], str):
+                    continue
+                (d / "pyproject.toml").write_text((to_toml(to_config(cfg_opts)) if cfg_opts else "[tool.refurb]\n") + amend_txt)
+                try:
+                    s2 = load_settings(["f.py", *to_argv(cli_opts)])
+                    got2: Any = [should_load_check(s2, c) for c in classes]
+                except ValueError as e:
+                    got2 = "error: " + str(e)[:80]
+                res.bump("amend_tables_added")
+                if got2 != impl[i] and amend_viol < 2:
+                    amend_viol += 1
+                    res.violate(
+                        f"adding per-path (amend) ignore tables to the config file changes which checks are loaded: {impl[i]} -> {got2} for the probes {[f'{p}{c}' for p, c, _, _ in PROBES]}",
+                        {"kind": "amend-changes-loading"},
+                        {"config": (to_toml(to_config(cfg_opts)) if cfg_opts else "[tool.refurb]\n") + amend_txt, "argv": ["f.py", "--load", "probe_c09", *to_argv(cli_opts), "--verbose"], "without_amend": impl[i], "with_amend": got2,
+                         "how": "write the probe_c09 plugin (harness/props/c09.py:plugin_sources), f.py (`x = 1`) and the config as pyproject.toml into an empty directory; python -m refurb <argv> lists the loaded checks"},
+                    )
+            (d / "pyproject.toml").write_text("")
+
         # ---- the loader itself (load_checks, what a run really uses) on a structured subset: every sequence of length <= 2 given on
         # the command line, plus a random sample of the other cases; which probe modules end up registered?
         import sys as _sys
